@@ -266,6 +266,7 @@ func checkC15(w *World) {
 	w.floorSites(P, "R15.6", 3)
 	// the root is its own parent with position 0: the evaluator's root tests and the store's surplus-end handling rely on it
 	w.include(P, "C10", "R10.7")
+	w.include(P, "C09", "R09.5") // an unknown or undecodable encoding label is an error of the charset reader, not a nil reader handed to the decoder
 }
 
 // adapterError: the decoder's error is returned with a nil node under err != nil.
@@ -1423,4 +1424,97 @@ func checkC19(w *World) {
 		})
 	}
 	w.floor(P, "R19.4", 2)
+	// R19.6 what Set writes into
+	docRule(P, "R19.6", "F", "Unmarshal writes a field or slice exactly where the caller's value holds it: the receiver of every reflect.Value.Set reached from Unmarshal is a value the function was given (a parameter, a Field(i)/Index(i) of one) or the Elem() of a pointer allocated with reflect.New on that path; it is never the Elem()/Indirect of a pointer found in the target (following an existing pointer overwrites memory that other targets or earlier results still share, and the field is then not freshly allocated).")
+	nSet := 0
+	for g := range closure {
+		allInstrs(g, func(in ssa.Instruction) {
+			c, ok := in.(*ssa.Call)
+			if !ok || staticCallee(c) == nil || funcFullName(staticCallee(c)) != "(reflect.Value).Set" || len(c.Call.Args) < 1 {
+				return
+			}
+			nSet++
+			ok2, why := freshOrGivenValue(c.Call.Args[0], map[ssa.Value]bool{}, 0)
+			w.check(P, "R19.6", "reflect.Value.Set receiver in "+g.Name(), c.Pos(), ok2, why)
+		})
+	}
+	if nSet == 0 {
+		w.undecided(P, "R19.6", "reflect.Value.Set", um.Pos(), "no Set call reached from Unmarshal")
+	}
+	w.floorSites(P, "R19.6", 2)
+}
+
+// freshOrGivenValue: v (a reflect.Value) is a parameter, a Field/Index of such a value, the Elem() of a reflect.New
+// result, or a merge of those.
+func freshOrGivenValue(v ssa.Value, seen map[ssa.Value]bool, depth int) (bool, string) {
+	if seen[v] {
+		return true, ""
+	}
+	seen[v] = true
+	if depth > 10 {
+		return false, "receiver too deep to trace"
+	}
+	v = throughCells(v)
+	switch x := v.(type) {
+	case *ssa.Parameter:
+		return true, "the receiver is the value the function was given"
+	case *ssa.Phi:
+		for _, e := range x.Edges {
+			if ok, why := freshOrGivenValue(e, seen, depth+1); !ok {
+				return false, why
+			}
+		}
+		return true, "the receiver is a value the function was given or the contents of a pointer it allocated"
+	case *ssa.UnOp:
+		if x.Op == token.MUL {
+			if al, ok := x.X.(*ssa.Alloc); ok {
+				// spilled value receiver: follow the stores
+				all := true
+				why := ""
+				n := 0
+				for _, st := range storesInto(al) {
+					if st.Addr == ssa.Value(al) {
+						n++
+						if ok, w2 := freshOrGivenValue(st.Val, seen, depth+1); !ok {
+							all, why = false, w2
+						}
+					}
+				}
+				if n > 0 && all {
+					return true, "the receiver is a value the function was given or the contents of a pointer it allocated"
+				}
+				if why != "" {
+					return false, why
+				}
+			}
+		}
+	case *ssa.Call:
+		sc := staticCallee(x)
+		if sc == nil {
+			return false, "receiver comes from a dynamic call"
+		}
+		switch funcFullName(sc) {
+		case "(reflect.Value).Field", "(reflect.Value).Index", "(reflect.Value).FieldByIndex":
+			return freshOrGivenValue(x.Call.Args[0], seen, depth+1)
+		case "(reflect.Value).Elem", "reflect.Indirect":
+			base := throughCells(x.Call.Args[0])
+			if bc, ok := base.(*ssa.Call); ok && staticCallee(bc) != nil && funcFullName(staticCallee(bc)) == "reflect.New" {
+				return true, "the receiver is the contents of a pointer allocated with reflect.New"
+			}
+			if ph, ok := base.(*ssa.Phi); ok {
+				allNew := len(ph.Edges) > 0
+				for _, e := range ph.Edges {
+					if bc, ok := throughCells(e).(*ssa.Call); !ok || staticCallee(bc) == nil || funcFullName(staticCallee(bc)) != "reflect.New" {
+						allNew = false
+					}
+				}
+				if allNew {
+					return true, "the receiver is the contents of a pointer allocated with reflect.New"
+				}
+			}
+			return false, "the receiver is the Elem()/Indirect of a pointer that was not allocated here: Set writes through a pointer found in the target"
+		}
+		return false, "receiver is the result of " + funcFullName(sc)
+	}
+	return false, fmt.Sprintf("receiver of kind %T not recognised", v)
 }
